@@ -3,7 +3,8 @@
 import json, os
 
 ROOT = os.path.dirname(os.path.dirname(os.path.abspath(__file__)))
-REPO_HOOK_COMMITS = ["verif: add read-only accessors for the verification harness (build tag verif)"]
+REPO_HOOK_COMMITS = ["verif: add read-only accessors for the verification harness (build tag verif)",
+                            "verif: accessors for the current frame, a register window and the open-upvalue registers (build tag verif)"]
 
 CHECKS = {
     "C09": dict(
